@@ -142,6 +142,8 @@ class Document(BlockToken):
             # form feeds, U+0085, U+2028 and other characters that do not end a line of Markdown
             lines = re.findall(r'[^\n\r]*(?:\r\n|\n|\r)|[^\n\r]+', lines)
         lines = [line if line.endswith('\n') else '{}\n'.format(line) for line in lines]
+        # the parser knows one line ending, the line feed
+        lines = [line[:-2] + '\n' if line.endswith('\r\n') else line for line in lines]
         self.footnotes = {}
         self.line_number = 1
         token._root_node = self
